@@ -193,6 +193,7 @@ type RecStore struct {
 	bans  []BanCall
 	cb    func()
 	stuck string
+	busy  int // Ban calls waiting for their callback
 }
 
 // BanCallbackWait bounds the wait for the store's call back into the syncer.
@@ -204,8 +205,16 @@ func (r *RecStore) Ban(addr string, d time.Duration, reason string) error {
 	r.mu.Lock()
 	r.bans = append(r.bans, BanCall{addr, reason})
 	cb := r.cb
+	if cb != nil {
+		r.busy++
+	}
 	r.mu.Unlock()
 	if cb != nil {
+		defer func() {
+			r.mu.Lock()
+			r.busy--
+			r.mu.Unlock()
+		}()
 		done := make(chan struct{})
 		go func() { cb(); close(done) }()
 		select {
@@ -217,6 +226,15 @@ func (r *RecStore) Ban(addr string, d time.Duration, reason string) error {
 		}
 	}
 	return nil
+}
+
+// WaitIdle waits (bounded) until no Ban call is waiting for its callback any more.
+func (r *RecStore) WaitIdle() {
+	WaitFor(BanCallbackWait+2*time.Second, func() bool {
+		r.mu.Lock()
+		defer r.mu.Unlock()
+		return r.busy == 0
+	})
 }
 
 // Stuck returns a description of the first Ban call whose call back into the syncer did not
